@@ -186,6 +186,7 @@ type Frame struct {
 	entryHeap    *Heap
 	exits        []Exit
 	defers       []*ssa.Defer
+	deferPCs     []Term // path condition under which each entry of defers was registered
 	loops        map[*ssa.BasicBlock]*loopInfo
 	back         map[[2]int]bool
 	callStack    []*ssa.Function
@@ -585,6 +586,13 @@ func (f *Frame) typeFacts(t types.Type, v Term, h *Heap) []Term {
 		out = append(out, Le(v, h.Comp(allocComp, SInt)))
 		if _, isMap := u.(*types.Map); isMap {
 			out = append(out, Ge(v, IntLit(0)))
+		} else if pt, ok := u.(*types.Pointer); ok {
+			// a pointer to a struct may address an embedded struct (a negative address):
+			// the object it lies in is allocated too
+			if _, isStruct := pt.Elem().Underlying().(*types.Struct); isStruct {
+				root := App("root!", SInt, v)
+				out = append(out, Implies(Lt(v, IntLit(0)), And(Gt(root, IntLit(0)), Le(root, h.Comp(allocComp, SInt)))))
+			}
 		}
 	case *types.Struct:
 		so := f.w.Sorts.SortOf(t)
